@@ -120,7 +120,7 @@ fn format_variant(
     let formatted = match (untagged_variant, enum_attr.tagged()?) {
         (true, _) | (_, Tagged::Untagged) => quote!(#parsed_ty),
         (false, Tagged::Externally) => match &variant.fields {
-            Fields::Unit => quote!(format!("\"{}\"", #ts_name)),
+            Fields::Unit => quote!(format!("{}", #crate_rename::__private::quote(&#ts_name))),
             Fields::Unnamed(unnamed) if unnamed.unnamed.len() == 1 => {
                 let field = &unnamed.unnamed[0];
                 let field_attr = FieldAttr::from_attrs(&field.attrs)?;
@@ -128,12 +128,12 @@ fn format_variant(
                 field_attr.assert_validity(field)?;
 
                 if field_attr.skip {
-                    quote!(format!("\"{}\"", #ts_name))
+                    quote!(format!("{}", #crate_rename::__private::quote(&#ts_name)))
                 } else {
-                    quote!(format!("{{ \"{}\": {} }}", #ts_name, #parsed_ty))
+                    quote!(format!("{{ {}: {} }}", #crate_rename::__private::quote(&#ts_name), #parsed_ty))
                 }
             }
-            _ => quote!(format!("{{ \"{}\": {} }}", #ts_name, #parsed_ty)),
+            _ => quote!(format!("{{ {}: {} }}", #crate_rename::__private::quote(&#ts_name), #parsed_ty)),
         },
         (false, Tagged::Adjacently { tag, content }) => match &variant.fields {
             Fields::Unnamed(unnamed) if unnamed.unnamed.len() == 1 => {
@@ -143,7 +143,7 @@ fn format_variant(
                 field_attr.assert_validity(field)?;
 
                 if field_attr.skip {
-                    quote!(format!("{{ \"{}\": \"{}\" }}", #tag, #ts_name))
+                    quote!(format!("{{ {}: {} }}", #crate_rename::__private::quote(&#tag), #crate_rename::__private::quote(&#ts_name)))
                 } else {
                     let ty = match field_attr.type_override {
                         Some(type_override) => quote!(#type_override),
@@ -153,13 +153,13 @@ fn format_variant(
                         }
                     };
                     quote!(
-                        format!("{{ \"{}\": \"{}\", \"{}\": {} }}", #tag, #ts_name, #content, #ty)
+                        format!("{{ {}: {}, {}: {} }}", #crate_rename::__private::quote(&#tag), #crate_rename::__private::quote(&#ts_name), #crate_rename::__private::quote(&#content), #ty)
                     )
                 }
             }
-            Fields::Unit => quote!(format!("{{ \"{}\": \"{}\" }}", #tag, #ts_name)),
+            Fields::Unit => quote!(format!("{{ {}: {} }}", #crate_rename::__private::quote(&#tag), #crate_rename::__private::quote(&#ts_name))),
             _ => quote!(
-                format!("{{ \"{}\": \"{}\", \"{}\": {} }}", #tag, #ts_name, #content, #parsed_ty)
+                format!("{{ {}: {}, {}: {} }}", #crate_rename::__private::quote(&#tag), #crate_rename::__private::quote(&#ts_name), #crate_rename::__private::quote(&#content), #parsed_ty)
             ),
         },
         (false, Tagged::Internally { tag }) => match variant_type.inline_flattened {
@@ -174,7 +174,7 @@ fn format_variant(
                     field_attr.assert_validity(field)?;
 
                     if field_attr.skip {
-                        quote!(format!("{{ \"{}\": \"{}\" }}", #tag, #ts_name))
+                        quote!(format!("{{ {}: {} }}", #crate_rename::__private::quote(&#tag), #crate_rename::__private::quote(&#ts_name)))
                     } else {
                         let ty = match field_attr.type_override {
                             Some(type_override) => quote! { #type_override },
@@ -184,12 +184,12 @@ fn format_variant(
                             }
                         };
 
-                        quote!(format!("{{ \"{}\": \"{}\" }} & {}", #tag, #ts_name, #ty))
+                        quote!(format!("{{ {}: {} }} & {}", #crate_rename::__private::quote(&#tag), #crate_rename::__private::quote(&#ts_name), #ty))
                     }
                 }
-                Fields::Unit => quote!(format!("{{ \"{}\": \"{}\" }}", #tag, #ts_name)),
+                Fields::Unit => quote!(format!("{{ {}: {} }}", #crate_rename::__private::quote(&#tag), #crate_rename::__private::quote(&#ts_name))),
                 _ => {
-                    quote!(format!("{{ \"{}\": \"{}\" }} & {}", #tag, #ts_name, #parsed_ty))
+                    quote!(format!("{{ {}: {} }} & {}", #crate_rename::__private::quote(&#tag), #crate_rename::__private::quote(&#ts_name), #parsed_ty))
                 }
             },
         },
